@@ -78,6 +78,7 @@ m('C06', B, '\t\tsigChan := scRef.stateSignal\n\t\tgb.mu.RUnlock()\n\t\tselect {
 m('C06', B, '\tif s != connectivity.Ready {\n\t\t\t// Ignore the replacement sc until it\'s ready.\n\t\t\treturn\n\t\t}', '\tif s != connectivity.Ready {\n\t\t\tgb.regeneratePicker()\n\t\t\tgb.bindSubConn("", sc)\n\t\t\treturn\n\t\t}', 'nested acquisition of gb.mu from UpdateSubConnState')
 m('C06', B, '\tgb.mu.Lock()\n\tdefer gb.mu.Unlock()\n\tif ref.refreshing {\n\t\treturn\n\t}', '\tgb.mu.Lock()\n\tif ref.refreshing {\n\t\treturn\n\t}\n\tdefer gb.mu.Unlock()', 'lock leaked on an early return')
 
+m('C06', P, '\tgp := &gcpPicker{\n\t\tgb:     gb,\n\t\tscRefs: readySCRefs,\n\t}', '\ttmpl := gcpPicker{gb: gb}\n\tcp := tmpl\n\tgp := &cp\n\tgp.scRefs = readySCRefs', 'a picker (with its mutex) is copied by value')
 # ---------------- C07
 m('C07', P, '\tif callStarted.Before(scRef.getLastResp()) {\n\t\treturn\n\t}\n', '', 'calls started before the last response are counted')
 m('C07', P, 'rpcErr.Error() != deErr.Error() || !ok || dl.After(time.Now())', '!ok || dl.After(time.Now())', 'server-side deadline errors count as unresponsive')
@@ -180,6 +181,7 @@ m('C17', B, '\terr := protojson.Unmarshal(j, c)', '\terr := protojson.UnmarshalO
 m('C17', B, '\t\t\t\tmp[method] = affinityCfg', '\t\t\t\tmp[method] = methodCfgs[0].GetAffinity()', 'method mapped to another entry\'s affinity')
 m('C17', B, '\t\t\tApiConfig: proto.Clone(cfg.ApiConfig).(*pb.ApiConfig),', '\t\t\tApiConfig: cfg.ApiConfig,\n\t\t}\n\t\t_ = proto.Clone\n\t\tif false {\n\t\t\tgb.cfg = nil', 'defaults written into the caller\'s object')
 
+m('C17', G, '\to := append([]grpc.DialOption{}, opts...)\n\to = append(o, []grpc.DialOption{\n\t\tgrpc.WithDisableServiceConfig(),\n\t\tgrpc.WithDefaultServiceConfig(fmt.Sprintf(`{"loadBalancingConfig": [{"%s":%s}]}`, Name, string(grpcGCPjsonConfig))),\n\t\tgrpc.WithChainUnaryInterceptor(GCPUnaryClientInterceptor),\n\t\tgrpc.WithChainStreamInterceptor(GCPStreamClientInterceptor),\n\t}...)\n', '\to := append([]grpc.DialOption{}, []grpc.DialOption{\n\t\tgrpc.WithDisableServiceConfig(),\n\t\tgrpc.WithDefaultServiceConfig(fmt.Sprintf(`{"loadBalancingConfig": [{"%s":%s}]}`, Name, string(grpcGCPjsonConfig))),\n\t\tgrpc.WithChainUnaryInterceptor(GCPUnaryClientInterceptor),\n\t\tgrpc.WithChainStreamInterceptor(GCPStreamClientInterceptor),\n\t}...)\n\to = append(o, opts...)\n', "the grpc-gcp options are placed in front of the caller's (seed C17-14)")
 # ---------------- C18
 m('C18', PR, '\tif backoff > max {\n\t\tbackoff = max\n\t}\n\treturn time.Duration(backoff)', '\treturn time.Duration(backoff)', 'backoff not clamped')
 m('C18', PM, 'instanceDBRegex, err := regexp.Compile(`^[-_.a-zA-Z0-9]*$`)', 'instanceDBRegex, err := regexp.Compile(`^[-_./a-zA-Z0-9]*$`)', 'slash allowed in instance/database names')
